@@ -1,7 +1,8 @@
 """Per-property configuration of the check driver (lib/vcheck.py)."""
 
 
-RX_TB = "Coq regex engine (Regex.v) agrees with Go regexp: checked by the RX differential on every regex-dependent run"
+RX_TB = ("Coq regex engine (Regex.v): proved sound and, fuel permitting, complete for the declarative matching relation RegexLemmas.matches "
+         "(rx_match_iff); that the generated ASTs mean what Go's regexp means is checked by the RX differential on every regex-dependent run")
 
 NC_RULE = ("netconf.Driver over the simulated transport against a NETCONF server model (strict RFC 6242 / end-of-message request parser; per-request "
            "behaviour reply now / after the client's timeout / never; echoing or not; 1.0/1.1; reply chunkings incl. ones that split the message-id "
@@ -287,7 +288,7 @@ PROPS = {
     "C17": {
         "n": {"quick": 1, "thorough": 1},
         "exhaustive": True,
-        "cone": ["Bytes", "Regex", "Generated", "Channel", "Network", "NetworkAbs", "NetworkLemmas", "Platform", "PlatformLemmas", "Replay", "NetworkTwins", "PlatformNav", "PlatformMerge"],
+        "cone": ["Bytes", "Regex", "Generated", "Channel", "Network", "NetworkAbs", "NetworkLemmas", "Platform", "PlatformLemmas", "Replay", "NetworkTwins", "PlatformNav", "PlatformMerge", "RegexLemmas", "PlatformLang"],
         "rx": True,
         "rule": "exhaustive: every advertised platform name and every embedded definition file (documentation example excluded) is loaded with "
                 "platform.NewPlatform / NewPlatformVariant; for network definitions the driver runs against a device built from the definition "
